@@ -17,8 +17,8 @@ from vf.oracles import same
 
 PROPERTY = "C25"
 WORKERS = {"quick": 16, "thorough": 16}
-CASES = {"quick": 900, "thorough": 40000}
-TIME = {"quick": 50, "thorough": 1200}
+CASES = {"quick": 900, "thorough": 5400}
+TIME = {"quick": 50, "thorough": 240}
 TECHNIQUE = "runtime monitoring: recording targets count writes per cell and log every write (bounds, lock state, phase); offline conservation check (each region cell written exactly once, none outside) plus NumPy mirror; npy-stack round trip in a scratch directory"
 RULE = (
     "1-3 source/target pairs; sources are from_array arrays, elementwise results, and sliding-window reductions (whose optimized layout "
